@@ -118,6 +118,13 @@ fn interesting32(rng: &mut Rng, extra: &[u32]) -> Vec<u32> {
             v.push((*e as i64 + d) as u32);
         }
     }
+    // small (plausible) values under every pattern of the four top bits (FAT32 numbers are 28 bits wide; a field that is
+    // range-checked after masking but used unmasked, or the reverse, shows here)
+    for h in 1..16u32 {
+        for lo in [0u32, 2, 3, 17, 1000, 0x0FFF_FFF8] {
+            v.push((h << 28) | lo);
+        }
+    }
     for _ in 0..200 {
         v.push(rng.next_u32());
         v.push(rng.next_u32() >> rng.below(32));
